@@ -53,7 +53,8 @@ RecSet(recs) == {recs[i] : i \in 1..Len(recs)}
 
 Dead == [alive |-> FALSE, open |-> FALSE, buf |-> <<>>, inited |-> FALSE, curDay |-> -1, pc |-> "dead",
          msg |-> 0, trig |-> "", rn |-> NONE, vict |-> <<>>, inClosed |-> FALSE, wrote |-> FALSE,
-         inOpen |-> FALSE, outOpen |-> FALSE, outClosed |-> FALSE]
+         inOpen |-> FALSE, outOpen |-> FALSE, outClosed |-> FALSE,
+         early |-> FALSE]     \* (trace validation only) the size check of this send rotates although the limit is not reached
 
 ---------------------------------------------------------------------------
 \* Ordering used by retention (removeOldFiles / findRotatedFiles): modification time, ties broken by
@@ -133,9 +134,9 @@ DoInt(S, C, T) ==
             ELSE [S EXCEPT !.sk.pc = "size"]
       [] pc = "size" -> [S EXCEPT !.sk.pc = IF C.L > 0 THEN "sizeF" ELSE "app"]
       [] pc = "sizeC" ->
-            IF ActSize(S) > 0 /\ ActSize(S) + S.g.rlen[m] > C.L
-            THEN [S EXCEPT !.sk.trig = "size", !.sk.pc = "rot"]
-            ELSE [S EXCEPT !.sk.pc = "app"]
+            IF ActSize(S) > 0 /\ (S.sk.early \/ ActSize(S) + S.g.rlen[m] > C.L)
+            THEN [S EXCEPT !.sk.trig = "size", !.sk.pc = "rot", !.sk.early = FALSE]
+            ELSE [S EXCEPT !.sk.pc = "app", !.sk.early = FALSE]
       [] pc = "app" ->
             [S EXCEPT !.sk.pc = IF SumLen(S.g, S.sk.buf) + S.g.rlen[m] > BufCap THEN "appF" ELSE "appW"]
       [] pc = "appW" ->                                                          \* goes into the buffer
